@@ -11,7 +11,7 @@ import qmodel
 import enginecheck as ec
 
 THEOREM = 'C19: reference semantics of C01-C05 (Props/C01..C05.v) instantiated with flavour Js; rbql-js tied to it by correspondence'
-CELLS = ['a', 'b', 'ab', 'ba', 'c', 'x1', 'A', 'a b', 'a!', 'b%', '_']
+CELLS = ['a', 'b', 'ab', 'ba', 'c', 'x1', 'A', 'a b', 'a!', 'b%', '_', 'US$$', 'x$&y', "$'", '$`z']      # incl. the $-sequences String.replace interprets
 NUM = ['1', '2', '3', '10', '7', '12', '2.5', '0.25', '0', '-4', '-1.5', '0']
 
 
